@@ -265,8 +265,17 @@ class Model:
             ctx['rechecked'].add(n)      # force-rebuilt after it was already checked in this run
         if n in ctx['done'] and not forced and ctx['done'][n] and n not in ctx['ran'] and self.parallel_dirty_at_start(n, ctx):
             del ctx['done'][n]      # only memoised as clean; see parallel_dirty_at_start
+        if n in ctx['done'] and not forced and ctx['done'][n] and n not in ctx['ran'] and ctx.get('start') is not None and self.obs_left(ctx, n) \
+                and n in ctx['start'].R and ctx['start'].R[n].built and ctx['start'].rounds_needed(n) >= 2:
+            # only memoised as clean, in this model's order, after a sibling had settled the levels below it; another requester
+            # (parallel command, other order of looking) met it with two nested checksum levels undecided: see the may-run rule below
+            del ctx['done'][n]
         if n in ctx['done'] and not forced:
             if not (ctx['done'][n] and self.tainted(n)):
+                if ctx['done'][n] and n in ctx['ran']:
+                    # a target executed earlier in this run and now requested again: redo looks at it, finds it clean and gives it
+                    # the "checked in this run" mark that a merely executed target does not have (see run_script, failure case)
+                    ctx.setdefault('looked_again', set()).add(n)
                 return ctx['done'][n]
             # n (or something below it) succeeded although a dependency it tolerates failed: by C05 it is not up to date, so a
             # further request in the same run may execute it again (redo does unless n was marked as
@@ -361,8 +370,8 @@ class Model:
                 continue
             if self.R[d].failed and ctx['done'].get(d) is False:
                 return True
-            if ctx['done'].get(d) is True and (d not in ctx['ran'] or self.R[d].stamped):
-                continue        # merely checked in this run (or marked by redo-stamp): redo does not look below it again
+            if ctx['done'].get(d) is True and (d not in ctx['ran'] or self.R[d].stamped or (d in ctx.get('looked_again', ()) and not ctx.get('parallel'))):
+                continue        # merely checked in this run (or marked by redo-stamp, or looked at again after it ran): redo does not look below it again
             if d not in seen:
                 seen.add(d)
                 if self.failed_below(d, ctx, seen):
@@ -431,19 +440,32 @@ class Model:
                 # the order in which redo brings these up to date is unspecified; it matters only when one of
                 # them fails (the rest is then not started): take the ones that were observed to run first
                 tops = sorted(tops, key=lambda d: 0 if d in ctx['obs'] else 1)
-            for d in tops:
-                if failed_known and not ctx['keep']:
-                    wr = self.would_run(d, ctx)
-                    if not wr and ctx.get('parallel') and self.obs_left(ctx, d):
-                        wr = {d}        # observed all the same: let update() see whether a parallel may-run rule explains it
-                    if not wr:
-                        continue
-                    ctx['ambiguous'].add(d)
-                    if not self.observed_more(ctx, wr):
-                        continue
-                if not self.update(d, ctx):
-                    failed_known = True
+            failed_here = set()
+            ctx.setdefault('oob_stack', []).append(set(tops))
+            try:
+                for d in tops:
+                    if failed_known and not ctx['keep']:
+                        wr = self.would_run(d, ctx)
+                        if not wr and ctx.get('parallel') and self.obs_left(ctx, d):
+                            wr = {d}        # observed all the same: let update() see whether a parallel may-run rule explains it
+                        if not wr:
+                            continue
+                        ctx['ambiguous'].add(d)
+                        if not self.observed_more(ctx, wr):
+                            continue
+                    if not self.update(d, ctx):
+                        failed_known = True
+                        failed_here.add(d)
+            finally:
+                ctx['oob_stack'].pop()
             if failed_known:
+                if ctx['obs'] is not None and self.obs_left(ctx, n) and any(failed_here & outer for outer in ctx['oob_stack']):
+                    # the dependency that failed is also a member of an out-of-band list that is being worked through further up
+                    # (n is built on behalf of another member of that list).  The order within such a list is unspecified: had the
+                    # failing member come first, n would have met it as "failed in this run", definitely dirty, and would have been
+                    # started (its own request for the dependency then fails).  n was observed to run: take that order.
+                    ctx['maybe'].add(n)
+                    return self.run_script(n, ctx, 'dep-failed-earlier-in-the-same-out-of-band-list:' + str(why))
                 if ctx.get('parallel') and ctx['obs'] is not None and self.obs_left(ctx, n):
                     # parallel command: the dependency was being built (and failed) on a sibling's behalf; n was judged after the
                     # failure had been recorded, found definitely dirty and started (its own request for the dependency then fails)
@@ -573,6 +595,8 @@ class Model:
             # mark) and finds the failed dependency.
             ctx['done'][n] = False
             for dn in [x for x, okd in ctx['done'].items() if okd and x in ctx['ran'] and x != n and not self.R[x].stamped]:
+                if dn in ctx.get('looked_again', ()) and not ctx.get('parallel'):
+                    continue        # executed, then requested again and found clean before this failure: it carries the checked mark
                 if self.failed_below(dn, ctx, set()):
                     del ctx['done'][dn]
             return False
@@ -642,7 +666,7 @@ class Model:
 
     def new_ctx(self, keep=False, obs=None):
         return dict(ran=[], done={}, keep=keep, obs=obs, reasons={}, ambiguous=set(), maybe=set(),
-                    notrun_failed=set(), late=set(), stack=[], extra_new={}, why_list=[], rechecked=set(), absorbed=set(), not_started=set(), unsettled_overbuild=set(), removed_overbuild=set())
+                    notrun_failed=set(), late=set(), stack=[], extra_new={}, why_list=[], rechecked=set(), absorbed=set(), not_started=set(), unsettled_overbuild=set(), removed_overbuild=set(), looked_again=set())
 
     def rounds_needed(self, n):
         """Pure: how many out-of-band rounds it takes, from the present state, until n can be judged."""
